@@ -345,19 +345,25 @@ func (c *Ctx) RCONReqID() []core.Ob {
 			continue
 		}
 		o.Pos, o.Func = c.P.Pos(fn.Pos()), core.FnName(fn)
+		// in the method itself or in a helper of the package it calls (acceptPacket)
 		ok := false
-		for _, b := range fn.Blocks {
-			for _, in := range b.Instrs {
-				st, isSt := in.(*ssa.Store)
-				if !isSt {
-					continue
-				}
-				if p, isF := fieldPathFromRecv(st.Addr, fn.Params[0]); !isF || p != "ReqID" {
-					continue
-				}
-				if ex, isEx := st.Val.(*ssa.Extract); isEx && ex.Index == 0 {
-					if cl, isCl := ex.Tuple.(*ssa.Call); isCl && strings.HasSuffix(calleeName(cl.Common()), "net.(RCONConn).ReadPacket") {
-						ok = true
+		for _, g := range c.withPkgCallees(fn, 2) {
+			if len(g.Params) == 0 {
+				continue
+			}
+			for _, b := range g.Blocks {
+				for _, in := range b.Instrs {
+					st, isSt := in.(*ssa.Store)
+					if !isSt {
+						continue
+					}
+					if p, isF := fieldPathFromRecv(st.Addr, g.Params[0]); !isF || p != "ReqID" {
+						continue
+					}
+					if ex, isEx := st.Val.(*ssa.Extract); isEx && ex.Index == 0 {
+						if cl, isCl := ex.Tuple.(*ssa.Call); isCl && strings.HasSuffix(calleeName(cl.Common()), "net.(RCONConn).ReadPacket") {
+							ok = true
+						}
 					}
 				}
 			}
